@@ -364,6 +364,9 @@ def run(prog: Program, res: Result, tier: str) -> None:
         res.bad("R5", rd, rd.node, f"from_inffile cannot supply required Header fields {miss}", construct="from_inffile", key=key)
     else:
         res.ok("R5", rd, rd.node, f"from_inffile supplies all {len(required)} required Header fields", construct="from_inffile", key=key)
+    from ..report import depends as _depends
+    _depends(res, "R5", prog, tier, "C08", accept=lambda o: "to_file" in (o.key or "") or "file-dm" in (o.key or ""),
+             why="the DM of a block written with to_file and read back: C08's rules for the DM recorded by to_file and carried by read_block are re-evaluated here")
     res.floor("R1", 1)
     res.floor("R6", 3)
     res.floor("R7", 5)
